@@ -31,6 +31,22 @@ def make_long_inputs(d, nrec):
     return {"gaf": os.path.join(d, "a.gaf"), "gfa": os.path.join(d, "g.gfa"), "fasta": os.path.join(d, "r.fa")}
 
 
+def make_passthrough_inputs(d, nrec):
+    """every read has more than 60,000 bases: the workers write the records back without aligning"""
+    from mc import gen
+
+    os.makedirs(d, exist_ok=True)
+    big = gen._seq(60_020, 23)
+    fw.write_text(os.path.join(d, "g.gfa"), f"S\tb1\t{big}\tLN:i:{len(big)}\tSN:Z:chr1\tSO:i:0\tSR:i:0\nS\tb2\tACGT\tLN:i:4\tSN:Z:chr1\tSO:i:{len(big)}\tSR:i:0\nL\tb1\t+\tb2\t+\t0M\n")
+    fa, gaf = [], []
+    for i in range(nrec):
+        fa.append(f">r{i}\n{big[i : i + 60_005]}\n")
+        gaf.append(f"r{i}\t60005\t0\t60005\t+\t>b1>b2\t{len(big) + 4}\t{i}\t{i + 60005}\t60005\t60005\t60\ttp:A:P\tcg:Z:60005=\n")
+    fw.write_text(os.path.join(d, "r.fa"), "".join(fa))
+    fw.write_text(os.path.join(d, "a.gaf"), "".join(gaf))
+    return {"gaf": os.path.join(d, "a.gaf"), "gfa": os.path.join(d, "g.gfa"), "fasta": os.path.join(d, "r.fa")}
+
+
 def make_inputs(d, nrec):
     os.makedirs(d, exist_ok=True)
     fw.write_text(os.path.join(d, "g.gfa"), GFA_TEXT)
@@ -47,13 +63,14 @@ def make_inputs(d, nrec):
 
 
 def cfg_for(d, c):
-    cfg = (make_long_inputs if c.get("long") else make_inputs)(os.path.join(d, f"in-{c['nrec']}{'-long' if c.get('long') else ''}"), c["nrec"])
+    maker = make_passthrough_inputs if c.get("passthrough") else make_long_inputs if c.get("long") else make_inputs
+    cfg = maker(os.path.join(d, f"in-{c['nrec']}{'-long' if c.get('long') else ''}{'-pt' if c.get('passthrough') else ''}"), c["nrec"])
     cfg.update(cores=c["cores"], batch=c["batch"], cpu_count=c["cpu_count"], pipe_capacity=c.get("pipe"))
     return cfg
 
 
 def cfg_key(c):
-    return f"cores={c['cores']},batch={c['batch']},records={c['nrec']},cpu_count={c['cpu_count']}" + (f",pipe_capacity={c['pipe']}" if c.get("pipe") else "") + (",reads of 30 kb" if c.get("long") else "")
+    return f"cores={c['cores']},batch={c['batch']},records={c['nrec']},cpu_count={c['cpu_count']}" + (f",pipe_capacity={c['pipe']}" if c.get("pipe") else "") + (",reads of 30 kb" if c.get("long") else "") + (",reads of more than 60 kb (pass-through)" if c.get("passthrough") else "")
 
 
 def configs(tier):
@@ -67,6 +84,7 @@ def configs(tier):
         for cores, batch, nrec in ((1, 2, 2), (1, 2, 3), (2, 1, 2), (2, 2, 3), (2, 2, 4)):
             out.append({"cores": cores, "batch": batch, "nrec": nrec, "cpu_count": 16, "pipe": 1})
         out.append({"cores": 2, "batch": 1, "nrec": 2, "cpu_count": 16, "long": True})
+        out.append({"cores": 2, "batch": 1, "nrec": 2, "cpu_count": 16, "passthrough": True})
     else:
         for cpu in (16, 2, 1):
             for cores in (1, 2, 3):
@@ -81,6 +99,8 @@ def configs(tier):
                         out.append({"cores": cores, "batch": batch, "nrec": nrec, "cpu_count": 16, "pipe": cap})
         for cores, batch, nrec in ((2, 1, 2), (2, 1, 3), (2, 2, 4), (3, 1, 3)):
             out.append({"cores": cores, "batch": batch, "nrec": nrec, "cpu_count": 16, "long": True})
+        for cores, batch, nrec in ((2, 1, 2), (2, 1, 3), (2, 2, 3)):
+            out.append({"cores": cores, "batch": batch, "nrec": nrec, "cpu_count": 16, "passthrough": True})
     return out
 
 
